@@ -262,10 +262,13 @@ impl Handle {
         loop {
             if let Some(reader) = self.readers.pop() {
                 // Make a query with the key and return the context to the queue after we finish so
-                // other threads can make progress
-                let result = reader.get(key);
-                self.readers.push(reader).expect("unreachable error");
-                break result;
+                // other threads can make progress. The guard returns the reader even if the query
+                // panics, otherwise the queue would have one reader less forever.
+                let reader = PooledReader {
+                    reader: Some(reader),
+                    readers: &self.readers,
+                };
+                break reader.get(key);
             }
             // Spin until we have access to a reader
             backoff.spin();
@@ -546,6 +549,30 @@ impl Writer {
     pub fn sync(&mut self) -> Result<(), Error> {
         self.writer.sync()?;
         Ok(())
+    }
+}
+
+/// A reader taken from the readers queue that is given back to the queue when dropped.
+struct PooledReader<'a> {
+    reader: Option<Reader>,
+    readers: &'a ArrayQueue<Reader>,
+}
+
+impl PooledReader<'_> {
+    fn get(&self, key: Bytes) -> Result<Option<Bytes>, Error> {
+        match &self.reader {
+            Some(reader) => reader.get(key),
+            None => unreachable!("the reader is only taken on drop"),
+        }
+    }
+}
+
+impl Drop for PooledReader<'_> {
+    fn drop(&mut self) {
+        if let Some(reader) = self.reader.take() {
+            // The queue can't be full because this reader was popped from it
+            let _ = self.readers.push(reader);
+        }
     }
 }
 
